@@ -202,7 +202,7 @@ var (
 // tSpecialTagEnd is the context transition function for raw text, RCDATA
 // script data, and stylesheet element states.
 func tSpecialTagEnd(c context, s []byte) (context, int) {
-	if specialElements[c.element.name] {
+	if specialElements[c.element.name] && !isInTag(c.state) {
 		if i := indexTagEnd(s, []byte(c.element.name)); i != -1 {
 			return context{}, i
 		}
